@@ -10,6 +10,8 @@ import (
 	"fmt"
 	"hash"
 	"math/big"
+	"os"
+	"strconv"
 	"strings"
 	"testing"
 	"time"
@@ -21,9 +23,9 @@ import (
 	"github.com/consensys/gnark/backend"
 	"github.com/consensys/gnark/backend/groth16"
 	"github.com/consensys/gnark/backend/plonk"
-	"github.com/consensys/gnark/frontend"
 	"github.com/consensys/gnark/backend/witness"
 	"github.com/consensys/gnark/constraint/solver"
+	"github.com/consensys/gnark/frontend"
 	"github.com/consensys/gnark/logger"
 	"golang.org/x/crypto/sha3"
 	"pgregory.net/rapid"
@@ -50,7 +52,7 @@ type Case struct {
 	HashOpt  string        `json:"hash_opt"` // default | sha256 | sha3 | keccak
 	StatZK   bool          `json:"stat_zk"`
 	NbTasks  int           `json:"nb_tasks"`
-	BadOut   int           `json:"bad_out"`   // -1: claim the true outputs; k: output k is claimed +Delta
+	BadOut   int           `json:"bad_out"` // -1: claim the true outputs; k: output k is claimed +Delta
 	Delta    int64         `json:"delta"`
 	Mismatch bool          `json:"mismatch"` // verifier uses another hash option than the prover: must NOT verify (plonk, or groth16 with commitments)
 }
@@ -192,7 +194,7 @@ func run(c Case) ev.Outcome {
 			return ev.Outcome{Violation: fmt.Sprintf("Prove produced a proof for a non-satisfying assignment (%s, bad output %d)", interp.Why, c.BadOut)}
 		}
 		classes = append(classes, "prove-rejected")
-		return ev.Outcome{NonTrivial: nbRows >= 1, Classes: classes}
+		return ev.Outcome{NonTrivial: nbRows >= 1, Classes: append(classes, rowsClass(c.Backend, nbRows))}
 	}
 	if r.err != nil {
 		return ev.Outcome{Violation: fmt.Sprintf("interpreter: assignment satisfies the circuit, but Prove failed: %v", r.err)}
@@ -227,7 +229,7 @@ func run(c Case) ev.Outcome {
 		}
 	}
 	classes = append(classes, "proved-and-verified")
-	return ev.Outcome{NonTrivial: nbRows >= 1, Classes: classes}
+	return ev.Outcome{NonTrivial: nbRows >= 1, Classes: append(classes, rowsClass(c.Backend, nbRows))}
 }
 
 func setupFailure(c Case, interp prog.Result, err error, classes []string) ev.Outcome {
@@ -299,8 +301,95 @@ func TestCompleteness(t *testing.T) {
 	g := genCase(curves)
 	rec.Check(t, "complete", ev.N(450, 20000), func(rt *rapid.T) {
 		c := g.Draw(rt, "case")
+		rec.Begin("complete", c)
 		rec.Report(rt, "complete", c, run(c))
 	})
+}
+
+// rowsClass labels the size of the system (PLONK: constraints + public inputs,
+// the quantity the prover sizes its domains from).
+func rowsClass(backend string, n int) string {
+	if n > 70 {
+		return backend + "-rows:>70"
+	}
+	return fmt.Sprintf("%s-rows:%d", backend, n)
+}
+
+// sizeProgram is a chain of k squarings of one secret input, with j public
+// inputs folded in and m public outputs: a family whose compiled size grows by
+// one row per unit of k, so that a sweep hits every small system size.
+func sizeProgram(k, j, m int) *prog.Program {
+	p := &prog.Program{}
+	p.In = append(p.In, prog.Input{Kind: "s", V: prog.Val{B: "n", O: 3}})
+	for i := 0; i < j; i++ {
+		p.In = append(p.In, prog.Input{Kind: "p", V: prog.Val{B: "n", O: int64(5 + i)}})
+	}
+	cur := 0
+	next := len(p.In)
+	for i := 0; i < k; i++ {
+		other := cur
+		if j > 0 && i%2 == 1 {
+			other = 1 + (i/2)%j
+		}
+		p.Ops = append(p.Ops, prog.Op{Op: "Mul", A: []int{cur, other}})
+		cur = next
+		next++
+	}
+	for i := 0; i < m; i++ {
+		p.Out = append(p.Out, cur)
+	}
+	return p
+}
+
+// TestSizeSweep proves and verifies systems of EVERY small size (and the sizes
+// around the next powers of two), on every curve: domain sizing, quotient
+// degree and SRS size checks depend on the exact number of rows, and random
+// programs leave holes in that range.
+func TestSizeSweep(t *testing.T) {
+	rec := ev.Get(ID)
+	all := []string{"bn254", "bls12-377", "bls12-381", "bls24-315", "bls24-317", "bw6-633", "bw6-761"}
+	ks := []int{0, 1, 2, 3, 4, 5, 6, 7, 8, 9, 10, 11, 13, 14, 15, 16, 17, 29, 30, 31, 32, 33, 61, 62, 63, 64, 65}
+	n := 0
+	for ci, curve := range all {
+		for _, backendName := range []string{"plonk", "groth16"} {
+			for _, k := range ks {
+				for j := 0; j <= 2; j++ {
+					for m := 0; m <= 2; m++ {
+						if j+m == 0 && backendName == "plonk" && k < 2 {
+							continue // fewer than 2 rows: documented as unsupported
+						}
+						// quick: every (k, j+m) on bn254 for PLONK; a rotating slice elsewhere
+						if ev.Tier() == "quick" {
+							if k > 17 && (j != 1 || m != 1) {
+								continue
+							}
+							if backendName == "groth16" && (ci != int(ev.Seed()%7) || j != 1) {
+								continue
+							}
+							if backendName == "plonk" && ci != 0 && (j+m)%3 != (ci+k)%3 {
+								continue
+							}
+						}
+						if n%max(1, envShards()) != ev.Shard()%max(1, envShards()) {
+							n++
+							continue
+						}
+						n++
+						c := Case{Prog: sizeProgram(k, j, m), Curve: curve, Backend: backendName, HashOpt: "default", BadOut: -1}
+						rec.Begin("complete", c)
+						o := run(c)
+						o.Classes = append(o.Classes, "size-sweep")
+						rec.Report(t, "complete", c, o)
+					}
+				}
+			}
+		}
+	}
+}
+
+func envShards() int {
+	n, _ := strconv.Atoi(os.Getenv("VERIF_SHARDS"))
+	return n
 }
 
 func TestReplay(t *testing.T) { ev.Replay(t) }
